@@ -546,6 +546,9 @@ func (rr *repRun) run() {
 	}
 	rr.res.SimNanos = int64(w.Now())
 	rr.res.Steps = w.Steps
+	for k, v := range w.Probes() {
+		rr.res.Stats[k] += int64(v)
+	}
 	rr.res.Shape = hashStrings(rr.shape)
 	rr.res.TraceHash = hashTrace(w.Trace)
 	rr.res.Nontrivial = rr.mutations > 0 && rr.compares > 0
